@@ -101,7 +101,6 @@ impl RepeatOperation for ReluctantFixed {
 struct ReluctantFixedIterator<'a> {
     op: &'a Operation,
     matcher: &'a ReMatcher<'a>,
-    position: usize,
     count: usize,
     min: usize,
     max: usize,
@@ -120,7 +119,6 @@ impl<'a> ReluctantFixedIterator<'a> {
         Self {
             op,
             matcher,
-            position,
             count: 0,
             min,
             max,
@@ -150,7 +148,6 @@ impl Iterator for ReluctantFixedIterator<'_> {
         }
 
         if self.count < self.max {
-            self.matcher.clear_captured_groups_beyond(self.position);
             let mut it = self.op.matches_iter(self.matcher, self.pos);
             if let Some(next) = it.next() {
                 self.pos = next;
